@@ -1,0 +1,30 @@
+//go:build verif
+
+package smf
+
+// Contracts for the deductive verifier in /verif (govc). Comment-only.
+//
+// Recording (C13). The listener that RecordFrom hands to midi.ListenTo is the closure RecordFrom$1; the driver
+// layer delivers complete MIDI messages (C04) with the arrival time stamp in milliseconds.
+
+// ticks for a duration of ns nanoseconds at bpm and a resolution of q ticks per quarter note (MetricTicks.Ticks,
+// with float64 modelled by the reals, M4): round(ns / 10^6 * q * bpm / 60000)
+//@ spec abstract tkOf(q uint16, bpm real, ns int64) uint32 = f2u32(mathRound((real(int(ns)) / 1000000.0 * real(int(q)) * bpm) / 60000.0))
+
+//@ func (MetricTicks).Ticks
+//@ uses tkOf.def
+//@ ensures [P:C13] ticks == tkOf(q == 0 ? 960 : uint16(q), fractionalBPM, int64(d))
+
+// what may be stored in a track of a Standard MIDI File out of a live stream: channel messages (and complete
+// system exclusive messages); real-time and system common messages have no place in a track
+//@ macro recChan(msg) = len(msg) >= 1 && msg[0] >= 0x80 && msg[0] <= 0xEF
+//@ macro recSysex(msg) = len(msg) >= 1 && (msg[0] == 0xF0 || msg[0] == 0xF7)
+
+//@ func (*Track).RecordFrom$1
+// (msg is a complete live message as midi.ListenTo delivers them: status byte first, FF only as the one-byte reset)
+//@ requires t != nil && !(len(*t) > 0 && isEOT((*t)[len(*t)-1].Message)) && len(msg) >= 1 && msg[0] >= 0x80 && (msg[0] == 0xFF ==> len(msg) == 1)
+//@ modifies absmillisec, *t
+//@ ensures [P:C13] absmillisec == ((recChan(msg) || recSysex(msg)) ? absms : old(absmillisec))
+//@ ensures [P:C13] (recChan(msg) || recSysex(msg)) ==> (len(*t) == old(len(*t)) + 1 && (*t)[len(*t)-1].Message == msg && forall i int :: 0 <= i && i < old(len(*t)) ==> (*t)[i] == old((*t)[i]))
+//@ ensures [P:C13] (recChan(msg) || recSysex(msg)) ==> (*t)[len(*t)-1].Delta == tkOf(ticks == 0 ? 960 : uint16(ticks), bpm, int64(absms - old(absmillisec)) * 1000000)
+//@ ensures [P:C13] !recChan(msg) && !recSysex(msg) ==> *t == old(*t)
